@@ -1,27 +1,27 @@
 (* C16, basic_string: every block obtained from the allocator is given back exactly once and nothing is left
    allocated when the owners are destroyed (strings hold chars: there are no element lifetimes, only blocks).
-   [run_ops world0 ops = Some w]: the script ops (any operations of Str/StrModel.op with any operands, including
+   [run_ops (world0 ct) ops = Some w]: the script ops (any operations of Str/StrModel.op with any operands, including
    self-aliasing and detach followed by the caller's free) ran line by line from the empty world, every line
    ending in Ok.  [finish w] destroys every live string in slot order. *)
 From Coq Require Import List NArith.
 From FV Require Import Common.EventLog Str.StrModel Str.StrLogProofs.
 Import ListNotations.
 
-Theorem C16_str_log_wf : forall (ops : list op) (w : world) (evs : list ev) (s' : st),
-  run_ops world0 ops = Some w -> finish w = (Ok evs, s') -> wf_closed (sevs s') = true.
+Theorem C16_str_log_wf : forall (ct : cty) (ops : list op) (w : world) (evs : list ev) (s' : st),
+  run_ops (world0 ct) ops = Some w -> finish w = (Ok evs, s') -> wf_closed (sevs s') = true.
 Proof. exact str_log_wf_closed. Qed.
 Print Assumptions C16_str_log_wf.
 
 (* the log of every prefix of a run is well-formed: no double free, no free of a foreign block, no id reused *)
-Theorem C16_str_log_wf_prefix : forall (ops : list op) (w : world),
-  run_ops world0 ops = Some w -> wf_log (sevs (wst w)) = true.
+Theorem C16_str_log_wf_prefix : forall (ct : cty) (ops : list op) (w : world),
+  run_ops (world0 ct) ops = Some w -> wf_log (sevs (wst w)) = true.
 Proof. exact str_log_wf_prefix. Qed.
 Print Assumptions C16_str_log_wf_prefix.
 
 Example C16_str_ex :   (* scs "a"; s0 + view "a" (D15: scratch freed); s0 += s0; s1 = s1; swap; resize; detach; end *)
   let ops := [OBuf [97%N; 0%N]; OSCstr 0 0%N; OSPlusV 0 (EPtrLen 0 0%N 1%N); OSAppV 0 (EStr 0); OSAssign 1 1; OSSwap 0 1;
               OSResize 0 5%N 205%N; OSDetach 1] in
-  exists w evs s', run_ops world0 ops = Some w /\ finish w = (Ok evs, s') /\
+  exists w evs s', run_ops (world0 char16_t) ops = Some w /\ finish w = (Ok evs, s') /\
     sevs s' = [EAlloc 2 2%N; EAlloc 3 3%N; EAlloc 4 3%N; EFree 3; EAlloc 5 3%N; EFree 2; EAlloc 6 3%N; EFree 4;
                EAlloc 7 6%N; EFree 6; EFree 5; EFree 7] /\ wf_closed (sevs s') = true.
 Proof. eexists _, _, _. split; [vm_compute; reflexivity|]. split; [vm_compute; reflexivity|]. split; vm_compute; reflexivity. Qed.
